@@ -31,6 +31,7 @@ class PathCtx:
         self.pos = 0
         self.solver = z3.Solver()
         self.solver.set('timeout', timeout_ms)
+        self._base_scopes = 0
         self.forks = []
         self.alloc = 0
         self.nfresh = 0
@@ -47,6 +48,7 @@ class PathCtx:
         self.texts = []        # OpaqueText objects created on this path
         self.notes = {}
         self.pc_len = 0
+        self.quant_ids = set()  # ast ids of quantified axioms in the solver
         self.pending = []      # constraints not yet handed to the solver
         self.facts = {}        # ast id of a decided condition -> truth value on this path
         self.wit = None        # a model of the current path condition (or None)
@@ -110,6 +112,49 @@ class PathCtx:
             self.axiom_keys.add(key)
             for a in mk():
                 self.solver.add(a)
+                if z3.is_quantifier(a):
+                    self.quant_ids.add(a.get_id())
+
+    def _refute_without_quantifiers(self, neg):
+        """The solver could not decide a query that involves quantified callee-contract axioms.  Look for a
+        counter-model of the quantifier-free part only: it may violate an axiom, so it counts only if it is
+        reproduced on the real code afterwards."""
+        self._flush()
+        s2 = z3.Solver()
+        s2.set('timeout', 5000)
+        for a in self.solver.assertions():
+            if a.get_id() not in self.quant_ids:
+                s2.add(a)
+        if neg is not None:
+            s2.add(neg)
+        if s2.check() != z3.sat:
+            return None
+        # prefer an informative counter-model: longer texts, non-empty and varying per-character settings
+        soft = []
+        for T in self.texts:
+            if getattr(T, 'kind', 'base') == 'base':
+                soft.append(sym.Z(T.len) <= 8)
+                soft.append(sym.Z(T.len) >= 4)
+            else:
+                soft.append(sym.Z(T.len) <= 3)
+        for v in self.consts:
+            if isinstance(v, sym.SymInt):
+                soft.append(z3.And(sym.Z(v) >= -12, sym.Z(v) <= 12))
+                soft.append(sym.Z(v) >= 2)
+        from . import abstract as _ab
+        for tb in getattr(self, 'abs_tables', []):
+            for i in range(5):
+                soft.append(_ab.VT(tb.term, z3.IntVal(i)) != _ab.NIL)
+                soft.append(_ab.VT(tb.term, z3.IntVal(i)) != _ab.VT(tb.term, z3.IntVal(i + 1)))
+        for sc in soft:
+            s2.push()
+            s2.add(sc)
+            if s2.check() == z3.sat:
+                continue  # keep it
+            s2.pop()
+        if s2.check() == z3.sat:
+            return s2.model()
+        return None
 
     # --- path condition
     def assume(self, cond):
@@ -232,6 +277,7 @@ class PathCtx:
                     raise Unsupported('sub-exploration budget')
                 self._flush()
                 self.solver.push()
+                self._base_scopes = self.solver.num_scopes()
                 self.decisions = list(prefix)
                 self.pos = 0
                 self.forks = []
@@ -246,6 +292,7 @@ class PathCtx:
                 finally:
                     self.pending = []
                     self.solver.pop()
+                    self._base_scopes = self.solver.num_scopes()
                 work.extend(self.forks)
         finally:
             self.sub_depth -= 1
@@ -302,14 +349,59 @@ class PathCtx:
             if r == z3.unsat:
                 ob = Obligation(name, 'discharged', detail=detail)
             elif r == z3.sat:
-                ob = Obligation(name, 'refuted', model=self.solver.model(), detail=detail,
+                ob = Obligation(name, 'refuted', model=self._small_model(cond), detail=detail,
                                 approx=approx or self.approx_false)
             else:
-                ob = Obligation(name, 'undecided', detail=detail + ' solver=' + self.solver.reason_unknown())
+                m2 = None
+                if self.quant_ids:
+                    m2 = self._refute_without_quantifiers(None if cond is False else sym.b_not(cond))
+                if m2 is not None:
+                    ob = Obligation(name, 'refuted', model=m2, approx=True,
+                                    detail=detail + ' (counter-model of the quantifier-free part; callee-contract axioms '
+                                    'not enforced on it)')
+                else:
+                    ob = Obligation(name, 'undecided', detail=detail + ' solver=' + self.solver.reason_unknown())
         ob.time = time.time() - t0
         ob.path = list(getattr(self, 'path_prefix', None) or []) + list(self.decisions[:self.pos])
         self.obligations.append(ob)
         return ob
+
+    def _small_model(self, cond):
+        """a counter-model of `PC => cond`, preferring short texts and small integers (readable replays)"""
+        m = self.solver.model()
+        neg = None if cond is False else sym.b_not(cond)
+        if self.quant_ids:
+            m2 = self._refute_without_quantifiers(neg)
+            return m2 if m2 is not None else m
+        self.solver.push()
+        try:
+            if neg is not None:
+                self.solver.add(neg)
+            soft = []
+            for T in self.texts:
+                if getattr(T, 'kind', 'base') == 'base':
+                    soft.append(sym.Z(T.len) >= 3)
+                soft.append(sym.Z(T.len) <= (8 if getattr(T, 'kind', 'base') == 'base' else 3))
+            from . import abstract as _ab
+            for tb in getattr(self, 'abs_tables', []):
+                for i in range(4):
+                    soft.append(_ab.VT(tb.term, z3.IntVal(i)) != _ab.NIL)
+                    soft.append(_ab.VT(tb.term, z3.IntVal(i)) != _ab.VT(tb.term, z3.IntVal(i + 1)))
+            for v in self.consts:
+                if isinstance(v, sym.SymInt):
+                    soft.append(z3.And(sym.Z(v) >= -9, sym.Z(v) <= 9))
+            for sc in soft[:40]:
+                self.solver.push()
+                self.solver.add(sc)
+                if self.solver.check() == z3.sat:
+                    m = self.solver.model()
+                else:
+                    self.solver.pop()
+        finally:
+            # unwind every push made above
+            while self.solver.num_scopes() > self._base_scopes:
+                self.solver.pop()
+        return m
 
     def fail(self, name, detail=''):
         return self.prove(name, False, detail)
